@@ -98,12 +98,24 @@ type RunOpts struct {
 	KeepSites bool
 }
 
+// The seams are installed once, before any goroutine exists: the hook object
+// finds the current run through the calling task.
+func init() {
+	simhook.H = sim.HooksFor(nil)
+	varlink.VerifListen = simListen
+}
+
 func simListen(ctx context.Context, network, address string) (net.Listener, error) {
 	return sim.Listen(network, address)
 }
 
 // RunOne executes one scenario in a fresh bubble.
-func RunOne(t *testing.T, prop string, seed uint64, sc Scenario, o RunOpts) (res RunResult) {
+//
+// The result is stored through res while still inside the bubble: when the
+// race detector has reported something during the run, synctest.Test ends the
+// calling test with FailNow (runtime.Goexit) and a return value would be lost.
+func RunOne(t *testing.T, prop string, seed uint64, sc Scenario, o RunOpts, res *RunResult) {
+	*res = RunResult{}
 	res.Prop = prop
 	res.Seed = seed
 	raw, err := json.Marshal(sc)
@@ -127,8 +139,6 @@ func RunOne(t *testing.T, prop string, seed uint64, sc Scenario, o RunOpts) (res
 	synctest.Test(t, func(t *testing.T) {
 		k := sim.New(sc.Cfg(), seed, o.Tape, o.Replay)
 		k.KeepTrace = o.KeepTrace
-		simhook.H = sim.HooksFor(k)
-		varlink.VerifListen = simListen
 		sc.Setup(k)
 		k.Run()
 		res.Steps = k.Steps()
@@ -158,7 +168,6 @@ func RunOne(t *testing.T, prop string, seed uint64, sc Scenario, o RunOpts) (res
 			res.Trace = append([]string{}, k.Trace()...)
 			res.Log = k.Log
 		}
-		simhook.H = nil
 	})
 	return
 }
